@@ -205,6 +205,9 @@ type nxHost struct {
 	usm   *nxSM
 	up    bool
 	incar int
+	// joiner: a non-voting replica that is added by a membership change and then
+	// started empty with join=true (ids N+1.. of a configuration with NonVotings)
+	joiner bool
 	// crash injection: crash when the hook counter of the current event reaches crashAt
 	outbox  []pb.Message
 	hookN   int
@@ -283,6 +286,10 @@ type nxCfg struct {
 	// RealTime: raft's tick counters are not normalised; Tick events advance
 	// real election/heartbeat timers (deterministic, distinct election timeouts)
 	RealTime bool
+	// NonVotings: number of extra hosts (ids N+1..) that are not initial members;
+	// the script adds them as non-voting members ("A<at>:<id>") and starts them
+	// with join=true ("J<id>")
+	NonVotings int
 }
 
 type nxMsg struct {
@@ -351,6 +358,11 @@ func newNxCluster(cfg *nxCfg) *nxCluster {
 		c.byID[h.id] = h
 		c.startHost(h)
 	}
+	for i := cfg.N + 1; i <= cfg.N+cfg.NonVotings; i++ {
+		h := &nxHost{c: c, id: uint64(i), fs: vfs.NewMemFS(), joiner: true}
+		c.hosts = append(c.hosts, h)
+		c.byID[h.id] = h
+	}
 	c.runPrefix()
 	return c
 }
@@ -376,13 +388,18 @@ func (c *nxCluster) startHost(h *nxHost) {
 	cfg := config.Config{ReplicaID: h.id, ShardID: nxShard, ElectionRTT: 10, HeartbeatRTT: 2,
 		CheckQuorum: c.cfg.CheckQuorum, PreVote: c.cfg.PreVote, Quiesce: c.cfg.Quiesce,
 		SnapshotEntries: c.cfg.SnapshotEntries, CompactionOverhead: 1000}
+	peers, initial := nxPeers(c.cfg.N), true
+	if h.joiner {
+		peers, initial = map[uint64]string{}, false
+		cfg.IsNonVoting = true
+	}
 	usm := h.usm
 	create := func(shardID uint64, replicaID uint64, done <-chan struct{}) rsm.IManagedStateMachine {
 		return rsm.NewNativeSM(cfg, rsm.NewInMemStateMachine(usm), done)
 	}
 	nr := registry.NewNodeRegistry(settings.Soft.StreamConnections, nil)
 	nhConfig := config.NodeHostConfig{RTTMillisecond: 1, NotifyCommit: c.cfg.NotifyCommit}
-	n, err := newNode(nxPeers(c.cfg.N), true, cfg, nhConfig, create, ss, lr, h.pipe, nil, nil,
+	n, err := newNode(peers, initial, cfg, nhConfig, create, ss, lr, h.pipe, nil, nil,
 		func(uint64, uint64, bool) {}, func(m pb.Message) { c.onSend(h, m) }, nr, c.pool, ldb, nil,
 		newSysEventListener(nil, nil))
 	if err != nil {
@@ -743,6 +760,8 @@ const (
 	nxHeal
 	nxHoldJob
 	nxReleaseJob
+	nxAddNonVoting
+	nxJoin
 )
 
 func nxev(kind int, a, b uint32) uint32 { return uint32(kind)<<24 | a<<12 | b }
@@ -755,7 +774,8 @@ func (c *nxCluster) describe(e uint32) string {
 	names := map[int]string{nxDeliver: "Deliver", nxDrop: "Drop", nxDup: "DupDeliver", nxTimeout: "ElectionTimeout", nxHeartbeat: "HeartbeatTimeout",
 		nxTick: "Tick", nxWrite: "Write@", nxRead: "ReadIndex@", nxLookup: "Lookup(op)", nxCrash: "CrashRestart", nxCrashIn: "CrashInDelivery",
 		nxHoldApply: "HoldApplyWorker", nxReleaseApply: "ReleaseApplyWorker", nxTransfer: "LeaderTransfer", nxStop: "StopShard",
-		nxWriteShort: "WriteShortTimeout@", nxReadShort: "ReadIndexShortTimeout@", nxPartition: "Partition(groupA mask)", nxHeal: "HealPartition", nxHoldJob: "HoldSnapshotJobs", nxReleaseJob: "ReleaseSnapshotJob"}
+		nxWriteShort: "WriteShortTimeout@", nxReadShort: "ReadIndexShortTimeout@", nxPartition: "Partition(groupA mask)", nxHeal: "HealPartition", nxHoldJob: "HoldSnapshotJobs", nxReleaseJob: "ReleaseSnapshotJob",
+		nxAddNonVoting: "RequestAddNonVoting@", nxJoin: "StartJoiner"}
 	return fmt.Sprintf("%s(%d,%d)", names[k], a, b)
 }
 
@@ -791,6 +811,12 @@ func (c *nxCluster) scriptEvent(it string) uint32 {
 		return nxev(nxPartition, a, 0)
 	case 'E':
 		return nxev(nxHeal, 0, 0)
+	case 'A':
+		fmt.Sscanf(it[1:], "%d:%d", &a, &b)
+		return nxev(nxAddNonVoting, a, b)
+	case 'J':
+		fmt.Sscanf(it[1:], "%d", &a)
+		return nxev(nxJoin, a, 0)
 	case 'w':
 		fmt.Sscanf(it[1:], "%d", &a)
 		return nxev(nxWriteShort, a, 0)
@@ -1126,6 +1152,19 @@ func (c *nxCluster) Step(e uint32) (msg string) {
 			break
 		}
 		op.out, op.status, op.ret = v.(uint64), "Completed", c.clock
+	case nxAddNonVoting:
+		h := c.byID[uint64(a)]
+		if !h.up {
+			break
+		}
+		if _, err := h.node.requestAddNonVotingWithOrderID(uint64(b), fmt.Sprintf("peer:%d", 12345+b), 0, 1000); err == nil {
+			c.guarded(h, 0, func() { c.stepWorker(h) })
+		}
+	case nxJoin:
+		h := c.byID[uint64(a)]
+		if h.joiner && !h.up && h.incar == 0 {
+			c.startHost(h)
+		}
 	case nxHoldApply:
 		c.used.lazy++
 		c.lazy[uint64(a)] = true
